@@ -21,6 +21,7 @@ Line-protocol handler for the binary codec model (`Model/BinCodec.lean`) and the
   bin.msg.enc ((<ind> <cls> (<field>*))*) <cls> <val>   → ok <len> x<bytes> | err <class>   (cls selects the registry entry)
   bin.msg.dec ((<ind> <cls> (<field>*))*) x<bytes>      → ok <consumed> <cls> <val> | err <class>
   bin.msg.layout <ind> (<field>*) <val>                 → x<bytes>
+  bin.arrcount <endian attribute | none>                → <type id>
 -/
 namespace NasdaqModel.Driver.BinCodecD
 open NasdaqModel Sexp BinCodec
@@ -168,6 +169,7 @@ def handle (op : String) (args : List Sexp) : Option String :=
       let fs ← fldsOfSexp fs
       let v ← valOfSexp v
       some (bytesToHex (Spec.Layout.msgLayout { ind := i, cls := 0, fs := fs } v))
+  | "bin.arrcount", [.atom a] => some (arrayCountType (if a == "none" then none else some a))
   | _, _ => none
 
 end NasdaqModel.Driver.BinCodecD
